@@ -516,4 +516,39 @@ theorem toU64_fmtNat (n : Nat) (h : n ≤ U64_MAX) : toU64 (fmtNat n) = .ok n :=
       simpa [decVal, decFrom] using h2
     simp [toU64, h1.1, toU64T2_allDigits body (digitVal c) h1.2 hd, hv, h]
 
+/-! ### flat documents -/
+
+theorem next_key : WriteState.next .key = some .keyValueSeparator := by decide
+theorem next_kvs : WriteState.next .keyValueSeparator = some .key := by decide
+
+theorem writeUnquoted_key (s : State) (k : Bytes) (hs : s.state = .key) (hd : s.depth = []) :
+    writeUnquoted s k = .ok { s with out := s.out ++ (if s.needsLineTerminator then [10] else []) ++ k,
+                                     state := .keyValueSeparator, needsLineTerminator := false } := by
+  obtain ⟨mode, depth, state, nlt, mixed, c, f, out⟩ := s
+  simp only at hs hd
+  subst hs hd
+  cases nlt <;>
+    simp [writeUnquoted, writePreamble, writeLineTerminator, writeEpilogue, writeIndent_eq, put, next_key]
+
+theorem writeUnquoted_kvs (s : State) (v : Bytes) (hs : s.state = .keyValueSeparator) (hn : s.needsLineTerminator = false) :
+    writeUnquoted s v = .ok { s with out := s.out ++ [61] ++ v, state := .key, needsLineTerminator := true } := by
+  obtain ⟨mode, depth, state, nlt, mixed, c, f, out⟩ := s
+  simp only at hs hn
+  subst hs hn
+  simp [writeUnquoted, writePreamble, writeLineTerminator, writeEpilogue, put, next_kvs]
+
+theorem run_flat (kvs : List (Bytes × Bytes)) (s : State) (hs : s.state = .key) (hd : s.depth = []) :
+    (run (flatCalls kvs) s).1.out = s.out ++ flatLines kvs (!s.needsLineTerminator) := by
+  induction kvs generalizing s with
+  | nil => simp [flatCalls, run, flatLines]
+  | cons kv r ih =>
+    obtain ⟨k, v⟩ := kv
+    simp only [flatCalls, run, step]
+    rw [writeUnquoted_key s k hs hd]
+    simp only []
+    rw [writeUnquoted_kvs _ v rfl rfl]
+    simp only []
+    refine (ih _ rfl (by exact hd)).trans ?_
+    cases s.needsLineTerminator <;> simp [flatLines, List.append_assoc]
+
 end Jomini.Writer
